@@ -634,8 +634,8 @@ fn datum_step() -> BoxedStrategy<Step> {
 /// the power function's special cases: bases and exponents from a pool of exact values (zeros of both signs, +-1, small
 /// integers, halves, tiny, huge) mixed with arbitrary moderate values
 fn pow_step() -> BoxedStrategy<Step> {
-    let base = prop_oneof![6 => proptest::sample::select(vec![0.0f32, -0.0, 1.0, -1.0, 2.0, -2.0, 0.5, -0.5, 10.0, 1.0e-3, 1.0e-30, 1.0e30, -1.0e30, f32::MIN_POSITIVE, 1.0e-40, 3.0e38]), 3 => gen::moderate(), 1 => gen::finite_f32()];
-    let expo = prop_oneof![6 => proptest::sample::select(vec![0.0f32, -0.0, 1.0, -1.0, 2.0, -2.0, 3.0, -3.0, 0.5, -0.5, 0.25, 1.0 / 3.0, 100.0, -100.0, 1.0e10, -1.0e10, 1.0e-10, 3.0e38, -3.0e38]), 3 => gen::moderate(), 1 => gen::finite_f32()];
+    let base = prop_oneof![6 => proptest::sample::select(vec![0.0f32, -0.0, 1.0, -1.0, 2.0, -2.0, 0.5, -0.5, 10.0, 1.0e-3, 1.0e-30, 1.0e30, -1.0e30, f32::MIN_POSITIVE, 1.0e-40, 3.0e38, 1.0001, 0.999, 1.01, -1.003, 0.99999]), 3 => gen::moderate(), 1 => gen::finite_f32()];
+    let expo = prop_oneof![6 => proptest::sample::select(vec![0.0f32, -0.0, 1.0, -1.0, 2.0, -2.0, 3.0, -3.0, 0.5, -0.5, 0.25, 1.0 / 3.0, 100.0, -100.0, 1000.0, -1000.0, 1501.0, 2000.0, 50000.0, -30001.0, 2147483648.0, 1.0e10, -1.0e10, 1.0e-10, 3.0e38, -3.0e38]), 3 => gen::moderate(), 1 => gen::finite_f32()];
     proptest::collection::vec((base, expo).prop_map(|(b, e)| [b, e]), 1..6).prop_map(|pairs| Step::Pow { pairs }).boxed()
 }
 fn step() -> BoxedStrategy<Step> {
